@@ -279,6 +279,21 @@ class Impl:
         # order.  The appended ones come from a set (hash order): canonicalised by sorting, as in Corr.C20.params_obs
         return [p["name"] for p in out if not p["required"]] + sorted(p["name"] for p in out if p["required"])
 
+    def schemas(self, raw: list) -> list | None:
+        """build_schemas (loader) on flat object schemas; content of schema i is recognisable by its property p<i>"""
+        from pyopenapi_gen.core.loader.schemas.extractor import build_schemas
+        doc = {n: {"type": "object", "properties": {f"p{i}": {"type": "string"}}} for i, n in enumerate(raw)}
+        try:
+            ctx = build_schemas(doc, {"schemas": doc})
+        except RuntimeError:
+            return None
+        out = []
+        for k, v in ctx.parsed_schemas.items():
+            props = list((v.properties or {}).keys())
+            idx = int(props[0][1:]) if len(props) == 1 and props[0][:1] == "p" and props[0][1:].isdigit() else 10 ** 6
+            out.append([k, idx])
+        return out
+
     def models(self, raw: list) -> dict:
         d = tempfile.mkdtemp(dir=self.scratch)
         try:
@@ -393,6 +408,17 @@ def run_case(impl: Impl, kind: str, inp: Any) -> dict:
         lost = sorted(k for k in need if have[k] < need[k])
         if lost:
             fails.append(f"parameters of one operation: declared parameter(s) {lost} missing from the signature (dropped)")
+        return {"input": {"kind": kind, "arg": inp}, "obs": obs, "oracle_fail": fails}
+    if kind == "schemas":
+        obs = impl.schemas(inp)
+        fails = []
+        if obs is None:
+            fails.append("component schemas: the loader raised RuntimeError (name derivation is not total)")
+        else:
+            held = sorted(i for _, i in obs)
+            if held != list(range(len(inp))):
+                lost = [inp[i] for i in range(len(inp)) if i not in held]
+                fails.append(f"component schemas: {len(inp)} declared, {len(obs)} kept; dropped or merged: {lost}")
         return {"input": {"kind": kind, "arg": inp}, "obs": obs, "oracle_fail": fails}
     if kind == "models":
         o = impl.models(inp)
@@ -522,6 +548,18 @@ def _main(chk: Check, impl: Impl, replay: dict | None) -> int:
     mod_inputs += [[n if n.strip() else "$" for n in names] for names in piles(True)]
     mod_cases = [run_case(impl, "models", x) for x in mod_inputs]
 
+    sch_inputs = [c["input"]["arg"] for c in corpus if c["input"]["kind"] == "schemas"]
+    spool = ["foo_bar", "FooBar", "fooBar", "foo-bar", "Foo", "foo", "FOO", "a_b", "a-b", "AB", "Ab", "aB", "x_y_z", "XYZ",
+             "Xyz", "user_v2", "UserV2", "HTTPServer", "HttpServer", "type", "Type_", "none", "None", "$", "-", "1a", "_1a",
+             "Pet", "pet", "Pets", "A", "a", "é", "x"]
+    for names in ([list(t) for t in itertools.product(spool[:20], repeat=2)]
+                  + [[rng.choice(spool) for _ in range(rng.randint(1, 5))] for _ in range(300 * scale)]
+                  + [[s] for s in spool] + [[s] for s in exhaustive(2)]):
+        names = [n for n in dict.fromkeys(names) if n.strip()]
+        if names:
+            sch_inputs.append(names)
+    sch_cases = [run_case(impl, "schemas", x) for x in sch_inputs]
+
     streams = [
         ("fields", field_cases, "list (str * bool) * list (str * str)", "run_fields",
          lambda c: f"({clist(cpair(cstr(k), cbool(q)) for k, q in c['input']['arg'])}, {c_pairs(c['obs'])})",
@@ -535,7 +573,11 @@ def _main(chk: Check, impl: Impl, replay: dict | None) -> int:
         ("params", par_cases, "((list str * option str) * list str) * list str", "run_params",
          lambda c: f"((({c_strs(c['input']['arg'][0])}, {copt(c['input']['arg'][1], cstr)}), "
                    f"{c_strs(c['input']['arg'][2])}), {c_strs(c['obs'])})",
-         {1: "F04c", 2: "F20j", 3: "F20b"}, "Corr.C20.run_params: params = EndpointParameterProcessor.process_parameters names"),
+         {1: "F04c", 2: "F04d", 3: "F20b"}, "Corr.C20.run_params: params = EndpointParameterProcessor.process_parameters names"),
+        ("schemas", sch_cases, "list str * option (list (str * nat))", "run_schemas",
+         lambda c: f"({c_strs(c['input']['arg'])}, "
+                   f"{copt(c['obs'], lambda l: clist(cpair(cstr(k), str(i) + '%nat') for k, i in l))})",
+         {1: "F20k", 2: "F20m"}, "Corr.C20.run_schemas: build_keys = keys of build_schemas(...).parsed_schemas"),
         ("models", mod_cases, "list str * list (str * str)", "run_models",
          lambda c: f"({c_strs(c['input']['arg'])}, {c_pairs(c['obs'])})",
          {1: "F20a"}, "Corr.C20.run_models: dedup_models = ModelsEmitter generation_name / final_module_stem"),
